@@ -8,6 +8,7 @@ from ..source import Unsupported, AnchorError
 from ..xlate import Interp, Obj, ListV, DictV, Raised
 from .common import same, show
 from .rxnfix import species as opaque_species, get_public
+from .c08 import expected_delta
 
 
 def side_of(rxn, attr):
@@ -20,8 +21,11 @@ Z = '\x00'
 
 
 class World:
-    def __init__(self, repo, two_sites=False):
+    def __init__(self, repo, two_sites=False, names=None):
+        """names: {key: concrete text} - species, sites and elements spelled as a user spells them (H2, CH3(S), ...)
+        instead of symbolic texts"""
         self.repo = repo
+        self.names = names or {}
         self.I = I = Interp(repo)
         D = I.D
         self.sites = []
@@ -52,14 +56,17 @@ class World:
         sp('ts', 'S', self.sites[0], 3, (0, 1, 2))
         if two_sites:
             sp('b1', 'S', self.sites[1], 3, (0,))
+            sp('c1', 'S', self.sites[0], 4, (1,))
         self.reactions = []
 
     def text(self, key, width, cls='text'):
+        if key in self.names:
+            return self.names[key]
         k = Z + key
         self.I.sym_strings[k] = (width, cls)
         return k
 
-    def reaction(self, name, reactants, products, ts=None, adsorption=False):
+    def reaction(self, name, reactants, products, ts=None, adsorption=False, keep=True):
         I = self.I
         D = I.D
         ci = self.repo.cls('pmutt.reaction.ChemkinReaction')
@@ -79,7 +86,23 @@ class World:
         if isinstance(o, Raised):
             raise Unsupported('ChemkinReaction(...) raised %s for the model reaction %s' % (o.exc, name))
         o._interp = I
-        self.reactions.append(o)
+        o._sides = (name, reactants, products, ts, adsorption)
+        if keep:
+            self.reactions.append(o)
+        return o
+
+    def twin(self, rxn):
+        """a second reaction object built from the same species, coefficients and parameters: it has not been asked
+        for anything yet, so what it answers cannot come from an earlier call"""
+        name, reactants, products, ts, adsorption = rxn._sides
+        return self.reaction(name, reactants, products, ts, adsorption, keep=False)
+
+    def reaction_set(self):
+        """Reactions(reactions=[...]) through its constructor"""
+        o = self.I.construct(self.repo.cls('pmutt.reaction.Reactions'), [], {'reactions': ListV(list(self.reactions))},
+                             name='rset')
+        if isinstance(o, Raised):
+            raise Unsupported('Reactions(reactions=[...]) raised %s' % o.exc)
         return o
 
 
@@ -113,8 +136,10 @@ def fields_of(line):
     return [s for s in line.segs if s.kind == 'field']
 
 
-def check_reaction_lines(run, w, lines, expected_rxns, label, writer, m, kw, act_method, ads_method, act_unit):
-    """each expected reaction appears once, with A/sticking, beta, Ea equal to the model's values"""
+def check_reaction_lines(run, w, lines, expected_rxns, label, writer, m, kw, act_method, ads_method, act_unit,
+                         twins=None):
+    """each expected reaction appears once, with A/sticking, beta, Ea equal to the model's values (asked of the
+    reaction's twin when one is given: an object that no earlier call has touched)"""
     I = w.I
     fn = m.functions[writer]
     # adsorption reactions are followed by a STICK line
@@ -140,7 +165,7 @@ def check_reaction_lines(run, w, lines, expected_rxns, label, writer, m, kw, act
                   '[%s] the equation of %s lists species %s, expected %s' % (label, rxn.name, names, want_names), m, fn)
         kwm = dict(kw)
         undefined = False
-        if not rxn.attrs['is_adsorption'] and side_of(rxn, 'transition_state') is None and act_method in (
+        if not side_of(rxn, 'is_adsorption') and side_of(rxn, 'transition_state') is None and act_method in (
                 'get_E_act', 'get_EoRT_act'):
             # the model does not define this activation quantity without a transition state: written as 0
             undefined = True
@@ -156,49 +181,87 @@ def check_reaction_lines(run, w, lines, expected_rxns, label, writer, m, kw, act
                      '[%s] reaction line of %s has %d numeric fields, expected A, beta, Ea' % (label, rxn.name, len(nums)),
                      m, fn)
             continue
-        if rxn.attrs['is_adsorption']:
-            wantA = rxn.attrs['sticking_coeff']
-            wantE = I.call_method(rxn, ads_method, [], dict(kwm, units=act_unit))
+        model = (twins or {}).get(id(rxn), rxn)
+        if side_of(rxn, 'is_adsorption'):
+            wantA = side_of(model, 'sticking_coeff')
+            wantE = I.call_method(model, ads_method, [], dict(kwm, units=act_unit))
         else:
             inc = act_method not in ('get_GoRT_act', 'get_G_act', 'get_delta_GoRT', 'get_delta_G')
-            wantA = I.call_method(rxn, 'get_A', [], dict(kwm, include_entropy=inc,
-                                                         sden_operation=kw.get('sden_operation')))
+            wantA = I.call_method(model, 'get_A', [], dict(kwm, include_entropy=inc,
+                                                           sden_operation=kw.get('sden_operation')))
             km = {k: v for k, v in kwm.items() if k != 'sden_operation'}
             if 'oRT' in act_method:
-                wantE = I.call_method(rxn, act_method, [], km)
+                wantE = I.call_method(model, act_method, [], km)
             else:
-                wantE = I.call_method(rxn, act_method, [], dict(km, units=act_unit))
+                wantE = I.call_method(model, act_method, [], dict(km, units=act_unit))
         run.check(isinstance(wantA, Rat) and nums[0].value.eq(wantA), 'DATAFLOW.A', 'chemkin.' + writer,
                   label + ' pre-exponential/sticking',
                   '[%s] first number of %s is %s, the model gives %s' % (label, rxn.name, show(nums[0].value, 100),
                                                                          show(wantA, 100)), m, fn,
                   sample='[%s] %s: A field == model value' % (label, rxn.name))
-        if not rxn.attrs['is_adsorption'] and (side_of(rxn, 'transition_state') is None or not inc):
+        if not side_of(rxn, 'is_adsorption'):
             # reference written here (header of surf.inp: k = kb/h/site_den^(n-1) ..., n the number of surface
-            # species): without the entropy factor and with at most one surface reactant molecule - the bulk species
-            # of a site is no surface species - the factor is kB/h whatever the site-density operation
-            n_ref = 0
+            # species): kB/h, times q_TS/q_IS at the conditions of this file when the entropy factor belongs in A, over
+            # (site densities, one per surface reactant molecule - the bulk species of a site is no surface species -
+            # combined by the requested operation)^(n-1).  Built from the species, not from the reaction object.
+            dens = []
             for sp, nu in zip(side_of(rxn, 'reactants').items, side_of(rxn, 'reactants_stoich').items):
                 site = sp.attrs['cat_site']
                 if sp.attrs['phase'].upper() == 'S' and site is not None and \
                         sp.attrs['name'] != site.attrs['bulk_specie']:
-                    n_ref += int(nu.const_value())
+                    dens += [site.attrs['site_density']] * int(nu.const_value())
+            n_ref = len(dens)
+            kb_h = I.D.sym('kb') / I.D.sym('h')
+            if side_of(rxn, 'transition_state') is None or not inc:
+                base, what = kb_h, 'kB/h'
+            else:
+                kwq = {'T': kw['T'], 'P': kw['P'], 'ignore_q_elec': True, 'include_ZPE': False}
+                base, what = kb_h * expected_delta(I, rxn, 'get_q', kwq, False, True), 'kB/h q_TS/q_IS(T, P)'
+            op = kw.get('sden_operation')
             if n_ref <= 1:
-                ref = I.D.sym('kb') / I.D.sym('h')
-                run.check(nums[0].value.eq(ref), 'REF.A', 'chemkin.' + writer, label + ' kB/h',
-                          '[%s] first number of %s is %s: with %d surface reactant molecule(s) (bulk species not counted) '
-                          'and no entropy factor it must be kB/h' % (label, rxn.name, show(nums[0].value, 100), n_ref),
-                          m, fn)
-        run.check(nums[1].value.eq(rxn.attrs['beta']), 'DATAFLOW.beta', 'chemkin.' + writer, label + ' beta',
+                ref = base
+            elif op == 'sum':
+                ref = base / sum(dens[1:], dens[0]).powi(n_ref - 1)
+            elif len({repr(d_) for d_ in dens}) == 1:
+                ref = base / dens[0].powi(n_ref - 1)         # min, max, mean of equal densities
+            else:
+                ref = None          # an extremum of different symbolic densities: left to DATAFLOW.A and C09
+            if ref is not None:
+                run.check(same(nums[0].value, ref), 'REF.A', 'chemkin.' + writer, label + ' kB/h',
+                          '[%s] first number of %s is %s: with %d surface reactant molecule(s) (bulk species not counted), '
+                          'site-density operation %r and %s it must be %s = %s / (effective site density)^%d'
+                          % (label, rxn.name, show(nums[0].value, 100), n_ref, op,
+                             'the entropy factor' if base is not kb_h else 'no entropy factor', show(ref, 100), what,
+                             max(n_ref - 1, 0)), m, fn)
+        run.check(nums[1].value.eq(side_of(rxn, 'beta')), 'DATAFLOW.beta', 'chemkin.' + writer, label + ' beta',
                   '[%s] temperature exponent of %s is %s' % (label, rxn.name, show(nums[1].value)), m, fn)
         if nums[2] is not None:
             run.check(isinstance(wantE, Rat) and nums[2].value.eq(wantE), 'DATAFLOW.Ea', 'chemkin.' + writer,
                       label + ' activation energy',
                       '[%s] activation energy of %s is %s, the model gives %s under the same conditions'
                       % (label, rxn.name, show(nums[2].value, 120), show(wantE, 120)), m, fn)
-        run.check(rec['stick'] == bool(rxn.attrs['is_adsorption']), 'DATAFLOW.stick', 'chemkin.' + writer,
-                  label + ' STICK', '[%s] STICK keyword %s for %s' % (label, 'missing' if rxn.attrs['is_adsorption']
+        run.check(rec['stick'] == bool(side_of(rxn, 'is_adsorption')), 'DATAFLOW.stick', 'chemkin.' + writer,
+                  label + ' STICK', '[%s] STICK keyword %s for %s' % (label, 'missing' if side_of(rxn, 'is_adsorption')
                                                                       else 'present', rxn.name), m, fn)
+
+
+def add_reactions(w, two_sites=False):
+    """the model mechanism: gas steps with and without transition state, a surface step, an adsorption, steps that
+    consume the bulk species of the site"""
+    w.reaction('rg', [('g1', 1), ('g2', 2)], [('g3', 1)])
+    w.reaction('rs', [('a1', 1), ('vac', 1)], [('a2', 2)], ts=[('ts', 1)])
+    w.reaction('rads', [('g1', 1), ('vac', 1)], [('a1', 1)], adsorption=True)
+    w.reaction('rg2', [('g3', 1)], [('g1', 1), ('g2', 1)], ts=[('ts', 1)])
+    # the bulk species of the site takes part in a reaction (oxide formation): it belongs on the BULK line only
+    w.reaction('rbk', [('a1', 1), ('blk', 1)], [('a2', 1)])
+    # ... and one with two surface reactant molecules next to the bulk species: (n-1) = 1, so which site densities are
+    # collected (and how they are combined) shows in A
+    w.reaction('rbk2', [('a1', 2), ('blk', 1)], [('a2', 1)])
+    if two_sites:
+        w.reaction('rb', [('b1', 2)], [('g2', 1)])
+        # an adsorbate of the first site that is first mentioned after one of the second site: the species come in the
+        # order site0 ... site1 site0, each site still has one block
+        w.reaction('rc', [('c1', 1), ('vac', 1)], [('a1', 1)])
 
 
 def mechanism(run, repo, two_sites):
@@ -206,14 +269,7 @@ def mechanism(run, repo, two_sites):
     w = World(repo, two_sites)
     I = w.I
     D = I.D
-    w.reaction('rg', [('g1', 1), ('g2', 2)], [('g3', 1)])
-    w.reaction('rs', [('a1', 1), ('vac', 1)], [('a2', 2)], ts=[('ts', 1)])
-    w.reaction('rads', [('g1', 1), ('vac', 1)], [('a1', 1)], adsorption=True)
-    w.reaction('rg2', [('g3', 1)], [('g1', 1), ('g2', 1)], ts=[('ts', 1)])
-    # the bulk species of the site takes part in a reaction (oxide formation): it belongs on the BULK line only
-    w.reaction('rbk', [('a1', 1), ('blk', 1)], [('a2', 1)])
-    if two_sites:
-        w.reaction('rb', [('b1', 2)], [('g2', 1)])
+    add_reactions(w, two_sites)
     T, P = D.sym('T'), D.sym('P')
     species_list = ListV(list(w.species.values()))
     tag = 'sites=%d' % (2 if two_sites else 1)
@@ -239,13 +295,13 @@ def mechanism(run, repo, two_sites):
                              None, 'kcal/mol')
         if act == 'get_G_act':
             from ..absre import NumPolicy
-            for pol in (NumPolicy(), NumPolicy(small=True), NumPolicy(negative=signed_quantity, small=True)):
+            for pol in policies(run, two_sites):
                 read_back(run, repo, w, 'write_gas', {'nasa_species': species_list,
                                                       'reactions': ListV(list(w.reactions)), 'T': T, 'P': P,
-                                                      'act_method_name': act}, gas_rx, label, pol)
+                                                      'act_method_name': act}, gas_rx, label, pol,
+                          species=species_list if pol.small and not pol.negative else None)
     # ---------------- surf.inp ----------------
-    rci = repo.cls('pmutt.reaction.Reactions')
-    rset = Obj('rset', rci, attrs={'reactions': ListV(list(w.reactions))})
+    rset = w.reaction_set()
     for act, ads in (('get_E_act', 'get_H_act'), ('get_G_act', 'get_G_act'), ('get_GoRT_act', 'get_GoRT_act'),
                      ('get_H_act', 'get_H_act'), ('get_EoRT_act', 'get_HoRT_act')):
         for op in ('min', 'sum'):
@@ -263,10 +319,10 @@ def mechanism(run, repo, two_sites):
                                  {'T': T, 'P': P, 'sden_operation': op}, act, ads, 'kcal/mol')
             if act == 'get_G_act' and op == 'min':
                 from ..absre import NumPolicy
-                for pol in (NumPolicy(), NumPolicy(small=True), NumPolicy(negative=signed_quantity, small=True)):
+                for pol in policies(run, two_sites):
                     read_back(run, repo, w, 'write_surf', {'reactions': rset, 'T': T, 'P': P, 'act_method_name': act,
                                                            'ads_act_method': ads, 'sden_operation': op}, surf_rx,
-                              label, pol)
+                              label, pol, species=species_list if pol.small and not pol.negative else None)
             # site blocks
             site_lines = [ln for ln in clean if ln.segs and ln.segs[0].kind == 'lit' and
                           ln.segs[0].text.startswith('SITE/')]
@@ -289,10 +345,28 @@ def mechanism(run, repo, two_sites):
             ads_lines = [ln for ln in clean if len(fields_of(ln)) == 2 and ln.segs[-1].kind == 'lit'
                          and ln.segs[-1].text == '/' and fields_of(ln)[1].cls == 'num'
                          and not (ln.segs[0].kind == 'lit' and ln.segs[0].text.startswith(('SITE', 'BULK')))]
+            bulk_lines_ = [ln for ln in clean if ln.segs and ln.segs[0].kind == 'lit' and
+                           ln.segs[0].text.startswith('BULK')]
             got_ads = sorted(str(fields_of(ln)[0].value) for ln in ads_lines)
             run.check(got_ads == sorted(sp.attrs['name'] for sp in want_ads), 'DATAFLOW.once', 'chemkin.write_surf',
                       tag + ' adsorbates', '[%s] adsorbate lines list %s, expected %s once each'
                       % (label, got_ads, sorted(sp.attrs['name'] for sp in want_ads)), m, fn)
+            # ... each under the SITE line of its own catalyst site (a block ends at the next SITE or BULK line)
+            cur_site = None
+            is_site, is_bulk, is_ads = ({id(x) for x in lst} for lst in (site_lines, bulk_lines_, ads_lines))
+            for ln in clean:
+                if id(ln) in is_site:
+                    cur_site = fields_of(ln)[0].value if fields_of(ln) else None
+                elif id(ln) in is_bulk:
+                    cur_site = None
+                elif id(ln) in is_ads:
+                    spm = [sp for sp in want_ads if sp.attrs['name'] == fields_of(ln)[0].value]
+                    if spm:
+                        own = spm[0].attrs['cat_site'].attrs['name']
+                        run.check(cur_site == own, 'DATAFLOW.section', 'chemkin.write_surf', tag + ' adsorbate under its site',
+                                  '[%s] adsorbate %s of site %s stands under %s' % (
+                                      label, spm[0].name, str(own).strip(Z),
+                                      'no SITE line' if cur_site is None else 'SITE/%s' % str(cur_site).strip(Z)), m, fn)
             for ln in ads_lines:
                 f0, f1 = fields_of(ln)
                 spm = [sp for sp in want_ads if sp.attrs['name'] == f0.value]
@@ -307,6 +381,32 @@ def mechanism(run, repo, two_sites):
                 fields_of(ln)[1].value.eq(s_.attrs['density']) for ln, s_ in zip(bulk_lines, w.sites))
             run.check(okb, 'DATAFLOW.site', 'chemkin.write_surf', tag + ' bulk', '[%s] BULK lines do not carry each '
                       'site\'s bulk species and density once' % label, m, fn)
+    # ---------------- the same reaction objects written again for other run conditions ----------------
+    # (a pressure series, then another temperature): every number is the model's value at the conditions of *this*
+    # call.  The model value is asked of a twin of each reaction - same species, built now, never called before - and
+    # REF.A is built from the species, so nothing a reaction object remembers from an earlier call can agree with both
+    if not two_sites:
+        Tb, Pb = D.sym('Tb'), D.sym('Pb')
+        for Tc, Pc, cname in ((T, Pb, 'T, Pb'), (Tb, Pb, 'Tb, Pb')):
+            twins = {id(r): w.twin(r) for r in w.reactions}
+            ctag = '%s again at (%s) after (%s)' % (tag, cname, 'T, P' if Tc is T else 'T, Pb')
+            for writer, wkw, rx, ckw, ads in (
+                    ('write_gas', {'nasa_species': species_list, 'reactions': ListV(list(w.reactions))},
+                     [r for r in w.reactions if all(sp.attrs['phase'].upper() == 'G'
+                                                    for sp in side_of(r, 'reactants').items)], {}, None),
+                    ('write_surf', {'reactions': rset, 'ads_act_method': 'get_H_act', 'sden_operation': 'sum'},
+                     [r for r in w.reactions if not all(sp.attrs['phase'].upper() == 'G'
+                                                        for sp in side_of(r, 'reactants').items)],
+                     {'sden_operation': 'sum'}, 'get_H_act')):
+                fn = m.functions[writer]
+                out = I.call_function(m, fn, [], dict(wkw, T=Tc, P=Pc, act_method_name='get_H_act'))
+                label = '%s %s' % (ctag, writer)
+                if isinstance(out, Raised):
+                    run.fail('DATAFLOW.write', 'chemkin.' + writer, label, 'raises %s' % out.exc, m, fn)
+                    continue
+                sec, _ = sections(out, I)
+                check_reaction_lines(run, w, sec.get('REACTIONS', []), rx, label, writer, m,
+                                     dict(ckw, T=Tc, P=Pc), 'get_H_act', ads, 'kcal/mol', twins=twins)
     # ---------------- the formatting options: delimiters, formats, activation-energy unit, MW correction ----------------
     opts = {'species_delimiter': ' + ', 'reaction_delimiter': ' <=> ', 'act_unit': 'kJ/mol', 'float_format': ' .5E',
             'stoich_format': '.1f', 'column_delimiter': '    '}
@@ -363,20 +463,58 @@ def mechanism(run, repo, two_sites):
                       NumPolicy(), delims=(ro.get('species_delimiter', '+'), ro['reaction_delimiter']))
     # every reaction in exactly one of the two files (complementary predicates on the same attribute)
     both = [r for r in w.reactions]
-    n_gas = len([r for r in both if r.attrs['gas_phase'] is True])
+    n_gas = len([r for r in both if side_of(r, 'gas_phase') is True])
     ck_owner, ck_init = repo.find_method(repo.cls('pmutt.reaction.ChemkinReaction'), '__init__')
-    run.check(all(isinstance(r.attrs['gas_phase'], bool) for r in both), 'ORDER.partition', 'ChemkinReaction.gas_phase',
+    run.check(all(isinstance(side_of(r, 'gas_phase'), bool) for r in both), 'ORDER.partition', 'ChemkinReaction.gas_phase',
               tag, 'gas_phase is not a definite boolean', ck_owner.module, ck_init)
     # a reaction whose reactants are all gaseous (whatever the case of the phase label) belongs to the gas file
     for r in both:
         allgas = all(sp.attrs['phase'].upper() == 'G' for sp in side_of(r, 'reactants').items)
-        run.check(r.attrs['gas_phase'] == allgas, 'SIB.phase-case', 'ChemkinReaction.gas_phase', 'phase label case',
+        run.check(side_of(r, 'gas_phase') == allgas, 'SIB.phase-case', 'ChemkinReaction.gas_phase', 'phase label case',
                   'reaction %s has only gaseous reactants (phase labels %s) but gas_phase=%s: the species is listed as a '
                   'gas species by write_gas (case-insensitive test) while its reaction is filed as a surface reaction '
                   '(case-sensitive test)' % (r.name, [sp.attrs['phase'] for sp in side_of(r, 'reactants').items],
-                                             r.attrs['gas_phase']),
+                                             side_of(r, 'gas_phase')),
                   ck_owner.module, ck_init)
     return w
+
+
+def policies(run, two_sites):
+    """the spellings of the printed numbers a file is read back under.  The reader does not look at the site blocks,
+    and the lines of the two-site mechanism differ from the one-site ones by their species only: there one spelling
+    (all three in the thorough tier)"""
+    from ..absre import NumPolicy
+    if two_sites and run.tier != 'thorough':
+        return (NumPolicy(),)
+    return (NumPolicy(), NumPolicy(small=True), NumPolicy(negative=signed_quantity, small=True))
+
+
+# names as chemists write them: a digit at the end (H2, O2), inside (H2O, CH3(S), C2H6_S), the characters ( ) * _ of the
+# grammar; with the coefficients of the model mechanism the file has 2O2 and 2C2H6_S (coefficient equal to a digit of the
+# name) next to 2CH3(S) (different from it)
+SPELLED = {'g1': 'H2', 'g2': 'O2', 'g3': 'H2O', 'a1': 'CH3(S)', 'a2': 'C2H6_S', 'vac': 'PT*', 'ts': 'TS1(S)',
+           'bulk0': 'PT(B)', 'site0': 'PT_111', 'el0': 'H', 'el1': 'O', 'el2': 'Pt'}
+
+
+def spelled_names(run, repo):
+    """the read-back with species names written out: what the reader makes of a name depends on its characters, and a
+    symbolic name is spelled by the regular-expression engine with letters the pattern does not mention"""
+    from ..absre import NumPolicy
+    w = World(repo, names=SPELLED)
+    I = w.I
+    D = I.D
+    add_reactions(w)
+    T, P = D.sym('T'), D.sym('P')
+    species_list = ListV(list(w.species.values()))
+    gas_rx = [r for r in w.reactions if all(sp.attrs['phase'].upper() == 'G' for sp in side_of(r, 'reactants').items)]
+    surf_rx = [r for r in w.reactions if r not in gas_rx]
+    names = ' '.join(sp.attrs['name'] for sp in w.species.values())
+    read_back(run, repo, w, 'write_gas', {'nasa_species': species_list, 'reactions': ListV(list(w.reactions)), 'T': T,
+                                          'P': P, 'act_method_name': 'get_G_act'}, gas_rx,
+              'gas.inp, names %s' % names, NumPolicy())
+    read_back(run, repo, w, 'write_surf', {'reactions': w.reaction_set(), 'T': T, 'P': P, 'act_method_name': 'get_G_act',
+                                           'ads_act_method': 'get_H_act', 'sden_operation': 'min'}, surf_rx,
+              'surf.inp, names %s' % names, NumPolicy(small=True), species=species_list)
 
 
 def signed_quantity(seg):
@@ -389,7 +527,7 @@ def signed_quantity(seg):
     return not all(a.startswith(pos) or a.endswith(('_sites', '_stick')) for a in v.atoms())
 
 
-def read_back(run, repo, w, which, kwargs, expected, label, policy, delims=('+', '=')):
+def read_back(run, repo, w, which, kwargs, expected, label, policy, delims=('+', '='), species=None):
     """write the file through the real writer, read it with the real read_reactions (regular expressions decided
     by absre on the abstract lines), compare species and stoichiometry with the model"""
     from ..absre import NumPolicy
@@ -421,19 +559,26 @@ def read_back(run, repo, w, which, kwargs, expected, label, policy, delims=('+',
             segs.append(sg)
         fixed.append(SegStr(segs))
     I.files[fname] = fixed
-    got = I.call_function(m, rfn, [], {'filename': fname})
+    # read_reactions(filename) gives (Reactions, Reactants, React_stoic, Products, Prod_stoic); with species=[...] the
+    # documented 7-tuple (Reactions, Reactants, React_obj, React_stoic, Products, Prod_obj, Prod_stoic)
+    got = I.call_function(m, rfn, [], {'filename': fname} if species is None else {'filename': fname, 'species': species})
     if isinstance(got, Raised):
         run.fail('TABLE.readback', 'chemkin.read_reactions', 'raises',
                  '[%s] reading back the file pMuTT wrote raises %s' % (label, got.exc), m, rfn)
         return
-    ok = isinstance(got, ListV) and len(got) == 5
+    n_res = 5 if species is None else 7
+    ok = isinstance(got, ListV) and len(got) == n_res
     if ok:
-        eqs, reac, rst, prod, pst = got.items
-        ok = all(isinstance(x, ListV) for x in (eqs, reac, rst, prod, pst)) and \
-            len(reac) == len(rst) == len(prod) == len(pst) == len(eqs)
+        if species is None:
+            eqs, reac, rst, prod, pst = got.items
+            robj = pobj = None
+        else:
+            eqs, reac, robj, rst, prod, pobj, pst = got.items
+        ok = all(isinstance(x, ListV) for x in got.items) and all(len(x) == len(eqs) for x in got.items)
     if not ok:
         run.fail('TABLE.readback', 'chemkin.read_reactions', 'result shape',
-                 '[%s] unexpected result %s' % (label, show(got, 160)), m, rfn)
+                 '[%s] unexpected result %s (%d lists with one entry per reaction expected%s)'
+                 % (label, show(got, 160), n_res, ' with species=' if species is not None else ''), m, rfn)
         return
     run.check(len(reac) == len(expected), 'TABLE.readback', 'chemkin.read_reactions', 'reaction count',
               '[%s] %d reactions read back, %d written' % (label, len(reac), len(expected)), m, rfn)
@@ -462,6 +607,21 @@ def read_back(run, repo, w, which, kwargs, expected, label, policy, delims=('+',
                   'chemkin.read_reactions', 'equation text',
                   '[%s] equation returned for %s is %s, written %s' % (label, rxn.name, show(eqs.items[i], 120),
                                                                        show(want_eq, 120)), m, rfn)
+    if species is not None:
+        # the species objects of each side are the very objects of the model reaction, in the order of the equation
+        for i, rxn in enumerate(expected):
+            for objs_all, attr in ((robj, 'reactants'), (pobj, 'products')):
+                objs = objs_all.items[i]
+                want_o = side_of(rxn, attr).items
+                oko = isinstance(objs, ListV) and len(objs.items) == len(want_o) and \
+                    all(a is b for a, b in zip(objs.items, want_o))
+                run.check(oko, 'TABLE.readback', 'chemkin.read_reactions', 'species= ' + attr,
+                          '[%s] the %s objects returned for %s are %s, the model reaction has %s'
+                          % (label, attr[:-1], rxn.name,
+                             [getattr(o_, 'name', o_) for o_ in objs.items] if isinstance(objs, ListV) else objs,
+                             [o_.name for o_ in want_o]), m, rfn,
+                          sample='[%s] %s: species objects of both sides read back' % (label, rxn.name)
+                          if i == 0 and attr == 'reactants' else None)
     # an operation whose outcome depends on how the user spelled a name is a reader that cannot give back every
     # mechanism: coefficient stripping that also removes digits inside the name
     seen = set()
@@ -530,7 +690,7 @@ def ea_files(run, repo, w):
                 run.fail('DATAFLOW.write', 'chemkin.write_EA', label, 'raises %s' % out.exc, m, fn)
                 continue
             lines = [ln.strip('rstrip', '\n') for ln in I.seg(out).splitlines()]
-            want = [r for r in w.reactions if bool(r.attrs['gas_phase']) == gas]
+            want = [r for r in w.reactions if bool(side_of(r, 'gas_phase')) == gas]
             count_line = [ln for ln in lines if ln.is_literal() and 'Number of reactions' in ln.literal()]
             declared = int(count_line[0].literal().split()[0]) if count_line else None
             rx_lines = [ln for ln in lines if any(f.cls != 'num' for f in fields_of(ln))]
@@ -545,7 +705,7 @@ def ea_files(run, repo, w):
                 run.check(names == want_names, 'DATAFLOW.equation', 'chemkin.write_EA', 'equation',
                           '[%s] the equation of %s lists species %s, expected its reactants and products %s'
                           % (label, r.name, names, want_names), m, fn)
-                meth_ = ads if r.attrs['is_adsorption'] else act
+                meth_ = ads if side_of(r, 'is_adsorption') else act
                 if side_of(r, 'transition_state') is None and meth_ in ('get_EoRT_act', 'get_E_act'):
                     lit = ''.join(s_.text for s_ in ln.segs if s_.kind == 'lit')
                     run.check(not nums and lit.count('0.00E+00') == len(conds), 'DATAFLOW.EA', 'chemkin.write_EA',
@@ -555,12 +715,12 @@ def ea_files(run, repo, w):
                 ok = len(nums) == len(conds)
                 if ok:
                     for f, cd in zip(nums, conds.items):
-                        meth = ads if r.attrs['is_adsorption'] else act
+                        meth = ads if side_of(r, 'is_adsorption') else act
                         wv = I.call_method(r, meth, [], dict(cd.d))
                         ok = ok and isinstance(wv, Rat) and f.value.eq(wv)
                 run.check(ok, 'DATAFLOW.EA', 'chemkin.write_EA', 'value per condition',
                           '[%s] the values written for %s are not the %s of the reaction at each run condition'
-                          % (label, r.name, ads if r.attrs['is_adsorption'] else act), m, fn)
+                          % (label, r.name, ads if side_of(r, 'is_adsorption') else act), m, fn)
     file_is_text(run, I, m, 'write_EA', {'reactions': ListV(list(w.reactions)), 'conditions': conds,
                                          'act_method_name': 'get_GoRT_act', 'ads_act_method': 'get_GoRT_act'}, 'EAs.inp')
 
@@ -718,6 +878,7 @@ def check(run, repo):
     if run.tier == 'thorough' or True:
         mechanism(run, repo, True)
     run_files(run, repo)
+    spelled_names(run, repo)
     # the kinetic parameter the reaction lines transcribe: A = (kB/h [q_TS/q_IS]) / (effective site density)^(n_surf-1)
     # with one density per surface reactant molecule, for every site-density operation (same rule as C09)
     from .c09 import preexp
